@@ -153,15 +153,16 @@ type w12Conn struct {
 	// sender starts writing a write-error report on this connection (window0: no byte of it is taken)
 	// and keeps it closed until the scheduler lets it read again. A TCP peer may stop reading at any
 	// byte; this picks the one byte boundary at which the sender's report write is in progress.
-	trapReport    bool
-	window0       bool
-	trapped       int
-	loggedTrapped int
+	trapReport     bool
+	window0        bool
+	trapped        int
+	loggedTrapped  int
 	loggedTimeouts int
-	nWrites       int
-	curReportOn   bool    // a Write call carrying a write-error report is in progress
-	curReport     float64 // its value
-	timeouts      []w12WriteTimeout
+	nWrites        int
+	curReportOn    bool    // a Write call carrying a write-error report is in progress
+	curReport      float64 // its value
+	timeouts       []w12WriteTimeout
+	longBlockedOK  int // Write calls that waited 2 s or more for the upstream to read and then completed
 
 	// scheduler-side parse state
 	parseOff    int
@@ -255,6 +256,7 @@ func (c *w12Conn) Write(p []byte) (int, error) {
 	n := 0
 	first := true
 	isReport := false
+	waitFrom := time.Duration(-1)
 	if c.nWrites > 0 && len(p) > pktHeadLen && !(len(p) >= pktHeadLen+w12MinPayload && bytes.Equal(p[pktHeadLen:pktHeadLen+4], w12Magic[:])) {
 		if v, err := w12ReportValue(p[pktHeadLen:]); err == nil {
 			isReport = true
@@ -291,11 +293,17 @@ func (c *w12Conn) Write(p []byte) (int, error) {
 		}
 		first = false
 		if n == len(p) {
+			if waitFrom >= 0 && c.now()-waitFrom >= 2*time.Second {
+				c.longBlockedOK++
+			}
 			return n, nil
 		}
 		if c.fast {
 			c.wr = append(c.wr, p[n:]...)
 			c.deliverLocked(p[n:])
+			if waitFrom >= 0 && c.now()-waitFrom >= 2*time.Second {
+				c.longBlockedOK++
+			}
 			return len(p), nil
 		}
 		space := c.cap - len(c.buf)
@@ -311,6 +319,9 @@ func (c *w12Conn) Write(p []byte) (int, error) {
 			c.wr = append(c.wr, p[n:n+k]...)
 			n += k
 			continue
+		}
+		if waitFrom < 0 {
+			waitFrom = c.now()
 		}
 		c.cond.Wait()
 	}
@@ -1028,6 +1039,13 @@ func (w *w12World) pushMany(k, sizeClass, yieldEvery int) {
 	r.Extra["packets_dropped"] += dropped
 	if dropped > 0 {
 		r.Probe("packet_dropped")
+		for _, cn := range w.connList() {
+			cn.mu.Lock()
+			if cn.curReportOn {
+				r.Probe("drop_during_report_write")
+			}
+			cn.mu.Unlock()
+		}
 	}
 	if w.failovers > fo0 {
 		r.Probe("failover_to_other_sender")
@@ -1058,6 +1076,9 @@ func w12Run(r *verifsim.Run) {
 	w.sockCap = w12Pick(r, "cfg.socket_buffer", 1<<20, 16384, 512, 64)
 	nsteps := c.Range(2, 40, "cfg.steps")
 	preSleep := c.Range(0, 9, "cfg.start_offset_us")
+	// swarm: a third of the runs lean towards overload (more and larger bursts that arrive before any
+	// sender is scheduled, upstream windows closing at report frames), the rest draw uniformly
+	overload := c.Chance(1, 3, "cfg.overload")
 	var list []string
 	switch addrSel {
 	case 0:
@@ -1091,6 +1112,7 @@ func w12Run(r *verifsim.Run) {
 	r.Config["host_tag"] = cfg.HostTag
 	r.Config["socket_buffer"] = w.sockCap
 	r.Config["steps"] = nsteps
+	r.Config["overload_bias"] = overload
 
 	// expected handshake, built from the receiver's protocol constants
 	w.key = append(w.key, receiver.TCPPrefix...)
@@ -1163,9 +1185,10 @@ func w12Run(r *verifsim.Run) {
 		aHeal
 		aDead
 		aTrap
+		aTrickle
 	)
 	for step := 0; step < nsteps && !r.Failed() && !w.disturbed; step++ {
-		acts := []int{aPush1, aSleep, aBurst, aPush1, aSleep, aBurst}
+		acts := []int{aPush1, aSleep, aBurst, aPush1, aSleep, aBurst, aTrickle}
 		if faultClass >= 1 {
 			if len(w.openConns()) > 0 {
 				acts = append(acts, aStall, aReset, aStall, aDead)
@@ -1185,16 +1208,32 @@ func w12Run(r *verifsim.Run) {
 			acts = append(acts, aHeal)
 			if trappable {
 				acts = append(acts, aTrap)
+				if overload {
+					acts = append(acts, aTrap)
+				}
 			}
 		}
 		if faultClass >= 2 {
 			acts = append(acts, aAddr, aAddr)
+		}
+		if overload {
+			acts = append(acts, aBurst, aBurst)
 		}
 		switch acts[c.Intn(len(acts), "act")] {
 		case aPush1:
 			r.Sched("push1", "ingress")
 			w.pushMany(1, 0, 0)
 			w.tick(0)
+		case aTrickle:
+			// a steady trickle: single packets at a fixed interval below the batch wait, too few to fill a batch
+			k := c.Range(3, 24, "trickle.n")
+			gap := w12Pick(r, "trickle.gap", 300*time.Millisecond, 50*time.Millisecond, 600*time.Millisecond, 900*time.Millisecond)
+			r.Sched("trickle", "ingress")
+			r.Event("ingress", "t=%v trickle of %d packets, one every %v", w.now(), k, gap)
+			for i := 0; i < k && !r.Failed() && !w.disturbed; i++ {
+				w.pushMany(1, 0, 0)
+				w.tick(gap + time.Duration(step+1)*time.Microsecond)
+			}
 		case aSleep:
 			d := w12Pick(r, "sleep", 300*time.Millisecond, time.Millisecond, 20*time.Millisecond, 1100*time.Millisecond,
 				2500*time.Millisecond, 6*time.Second, 17*time.Second, 35*time.Second, 4*time.Second, 10*time.Second)
@@ -1203,7 +1242,11 @@ func w12Run(r *verifsim.Run) {
 			w.tick(d + time.Duration(step+1)*time.Microsecond)
 		case aBurst:
 			var k int
-			switch c.Intn(6, "burst.class") {
+			class := c.Intn(6, "burst.class")
+			if overload {
+				class = []int{0, 3, 4, 3, 4, 2}[class]
+			}
+			switch class {
 			case 0:
 				k = c.Range(2, 8, "burst.n")
 			case 1:
@@ -1218,6 +1261,9 @@ func w12Run(r *verifsim.Run) {
 				k = c.Range(9, 29, "burst.n")
 			}
 			yieldEvery := w12Pick(r, "burst.yield_every", 1, 16, 0, 64)
+			if overload && yieldEvery == 16 {
+				yieldEvery = 0
+			}
 			sizeClass := w12Pick(r, "burst.size", 0, 0, 1, 2)
 			r.Sched(fmt.Sprintf("burst%d", k/100), "ingress")
 			w.pushMany(k, sizeClass, yieldEvery)
@@ -1375,12 +1421,38 @@ func (w *w12World) finalChecks() {
 	// failed outright is known to the balancer not to have been reported and is NOT credited.
 	reportLost := 0.0
 	failedConns := 0
+	// A write timeout is an upstream fault only if the upstream really kept the sender waiting for about
+	// the write timeout. The sender's deadline arithmetic promises WriteTimeout minus its declared
+	// accuracy (writeTimeoutAccuracy) at the deadline check, and up to two batch waits (swapWaitMax
+	// each) may pass between that check and a write call; one more second of margin is granted. A live
+	// upstream (not reset, peer not dead) that was not reading for less than that in the whole write
+	// timeout before the failure merely paused: its connection must not be closed for a timeout and
+	// what it held is not an excused loss.
+	slack := writeTimeoutAccuracy + 2*swapWaitMax + time.Second
+	var spurConn *w12Conn
+	var spur w12WriteTimeout
 	for _, c := range conns {
 		c.mu.Lock()
 		if c.failedW > 0 {
 			failedConns++
 		}
-		if c.remoteReset || c.everManual {
+		spurious := false
+		for _, to := range c.timeouts {
+			if to.dead {
+				continue
+			}
+			if to.paused >= w.writeTimeout-slack {
+				r.Probe("write_timeout_after_long_stall")
+				continue
+			}
+			spurious = true
+			if spurConn == nil {
+				spurConn, spur = c, to
+			}
+		}
+		if spurious {
+			// nothing on this connection is excused
+		} else if c.remoteReset || c.everManual {
 			for _, idx := range c.failedIdx {
 				excused[idx] = true
 			}
@@ -1407,6 +1479,9 @@ func (w *w12World) finalChecks() {
 		}
 		if c.failedReport > 0 {
 			r.Probe("drop_report_write_failed")
+		}
+		if c.longBlockedOK > 0 && !c.dead {
+			r.Probe("write_blocked_for_seconds_then_completed")
 		}
 		c.mu.Unlock()
 	}
@@ -1485,8 +1560,19 @@ func (w *w12World) finalChecks() {
 			}
 			c.mu.Unlock()
 		}
+		if spurConn != nil {
+			w.fail("not_forwarded", "timeout-on-short-stall", "%d accepted packet(s) (first #%d, accepted at t=%v) never reached the upstream and were not counted as dropped: conn c%d was closed for a write timeout at t=%v although its live upstream had not been reading for only %v of the preceding write timeout (%v)",
+				lost, firstLost, w.pkts[firstLost].tAccept, spurConn.id, spur.t, spur.paused, w.writeTimeout)
+			return
+		}
 		w.fail("not_forwarded", sig, "%d accepted packet(s) (first #%d, accepted at t=%v) never reached the upstream although it was healthy for the last %v and no reset/stalled connection held them",
 			lost, firstLost, w.pkts[firstLost].tAccept, w.settle+w.bound)
+		return
+	}
+
+	if spurConn != nil {
+		w.fail("live_conn_timeout", "short-stall", "conn c%d to a live upstream was closed for a write timeout at t=%v although the upstream had not been reading for only %v of the preceding write timeout (%v)",
+			spurConn.id, spur.t, spur.paused, w.writeTimeout)
 		return
 	}
 
